@@ -110,6 +110,8 @@ def _walk_no_nested(fn):
         fn.body, list) else [fn]
     while stack:
         n = stack.pop()
+        if isinstance(n, (ast.FunctionDef, ast.AsyncFunctionDef, ast.Lambda, ast.ClassDef)) and n is not fn:
+            continue          # a nested def that is a statement of the body itself
         yield n
         for c in ast.iter_child_nodes(n):
             if isinstance(c, (ast.FunctionDef, ast.AsyncFunctionDef,
